@@ -4,7 +4,10 @@
 Reads crates/ripd/src/handoff_context_bundle.rs:
   * `fn artifact_exists(workspace_root: &Path, artifact_id: &str) -> bool { <one expression> }` - the expression must be
     a conjunction (`&&`) of terms, each either `!artifact_id.is_empty()` or
-    `artifacts_blobs_dir(workspace_root).join(artifact_id).is_file()` / `.exists()` (optionally through
+    `artifacts_blobs_dir(workspace_root).join(artifact_id).is_file()` / `.exists()`, or (since the repair of S30)
+    `let mut c = Path::new(artifact_id).components(); matches!((c.next(), c.next()), (Some(Component::Normal(n)), None)
+    if n == OsStr::new(artifact_id)) && artifacts_blobs_dir(workspace_root).join(artifact_id).is_file()` -> GPlainIsFile
+    (optionally through
     `std::fs::metadata(..)`-free plain Path calls only); the shape is emitted as an `aguard` of Model/ArtGuard.v:
       non-empty && is_file -> GNonEmptyIsFile, is_file -> GIsFile, non-empty && exists -> GNonEmptyExists,
       exists -> GExists; anything else (more terms, `||`, another callee) -> gen_ok_art_guard := false;
@@ -75,7 +78,13 @@ def main():
         else:
             expr = squash(body)
             notes.append("guard expression: %s" % expr)
-            if "||" in expr or ";" in expr or "if" in re.findall(r"\b\w+\b", body) or "return" in body:
+            plain_re = (r"letmut(\w+)=Path::new\(artifact_id\)\.components\(\);matches!\(\(\1\.next\(\),\1\.next\(\)\),"
+                        r"\(Some\(Component::Normal\((\w+)\)\),None\)if\2==(?:std::ffi::)?OsStr::new\(artifact_id\)\)"
+                        r"&&artifacts_blobs_dir\(workspace_root\)\.join\(artifact_id\)\.is_file\(\)")
+            if re.fullmatch(plain_re, expr):
+                # the id is ONE normal path component, equal to the whole id, and names a regular file
+                guard = "GPlainIsFile"
+            elif "||" in expr or ";" in expr or "if" in re.findall(r"\b\w+\b", body) or "return" in body:
                 ok = False
                 notes.append("guard is not a plain conjunction")
             else:
@@ -134,11 +143,12 @@ def main():
     out.append("Definition gen_art_dir_ok : bool := %s." % ("true" if dir_ok else "false"))
     out.append("Definition gen_handoff_guard_before_writes : bool := %s." % ("true" if placed else "false"))
     out.append("")
-    out.append("(* obligation: the guard was found, is one of the shapes under which an accepted id reads back")
-    out.append("   (ArtGuardProofs.guard_sound_resolves), looks into the directory the bundle writer uses, and handoff")
+    out.append("(* obligation: the guard was found, is one of the shapes under which an accepted id reads back AND is a blob of the")
+    out.append("   store (guard_confines: ArtGuardProofs.guard_confines_store),")
+    out.append("   (ArtGuardProofs.guard_sound_resolves) looks into the directory the bundle writer uses, and handoff")
     out.append("   applies it before anything is written *)")
     out.append("Lemma gen_art_guard_ok :")
-    out.append("  gen_ok_art_guard && guard_sound gen_art_guard && gen_art_dir_ok && gen_handoff_guard_before_writes = true.")
+    out.append("  gen_ok_art_guard && guard_sound gen_art_guard && guard_confines gen_art_guard && gen_art_dir_ok && gen_handoff_guard_before_writes = true.")
     out.append("Proof. vm_compute. reflexivity. Qed.")
     dest = os.path.join(a.out, "HandoffGuard.v") if os.path.isdir(a.out) else a.out
     open(dest, "w").write("\n".join(out) + "\n")
